@@ -18,6 +18,59 @@ REGISTRY = {
         engine="E3 flow + E7 who-may-call",
         ref="DESIGN.md §4 C13",
     ),
+    "C08": dict(
+        text="Necessary structural conditions of 'grouping terminates with a partition', decided for every input because "
+        "they are facts about data flow, not values: inter-procedural taint shows which infinite cost constants can "
+        "reach scipy linear_sum_assignment (the one reaching site on this tree is a recorded known finding); the "
+        "min_line_scores / per-edge / per-node masks are applied to every array of their parallel group before use; "
+        "EdgeConnection receives (src, dst, score); connections are inserted in the topological edge order; the "
+        "min_instance_peaks filter drops whole instances by peak count; make_predicted_instances writes peak "
+        "(node, k) of the assignment table to row=instance, column=node.",
+        note="Trusted: ast; scipy raising on infeasible cost matrices. Not decided: optimality of the assignment (scipy), "
+        "connected-component and score-sum invariants, min_instance_peaks semantics for float thresholds.",
+        technique="inter-procedural inf taint + parallel-array consistency + def-use of the edge order",
+        engine="E4b taint + E7 structural",
+        ref="DESIGN.md §4 C08",
+    ),
+    "C09": dict(
+        text="Necessary structural conditions of the tracker contract over all histories: id allocation is max+1 (0 when "
+        "empty) and, on every CFG path of add_new_tracks, the id is stored on the instance and registered exactly once "
+        "before the next allocation; current_tracks only grows and only there; emptiness of matcher output is tested by "
+        "length, never by any()/all() over index values; no call passes an element where a List[T] parameter is "
+        "iterated; track() emits each tracked instance at most once, skipping only instances without a track id, from "
+        "this call's instances; every self.candidate.<m>() call fits the signature in both candidate classes; "
+        "inter-procedural taint of infinite costs into linear_sum_assignment through the matching-method registry "
+        "(the hungarian path is a recorded known finding).",
+        note="Trusted: ast, networkx, scipy raising on infeasible matrices. Not decided: behaviour over histories beyond "
+        "these necessary conditions (which track is chosen, stale-track reductions over empty lists).",
+        technique="CFG exactly-once path rules + who-may-call + index-truthiness lint + arity/interface agreement + inf taint",
+        engine="E3 flow + E7 structural + E4b taint + E6 siblings",
+        ref="DESIGN.md §4 C09",
+    ),
+    "C10": dict(
+        text="Only the structural clause is claimed: a newcomer's identity is fresh and association scores are addressed "
+        "by identity - id allocation max+1 registered in the same iteration, current_tracks never shrinks (ids are exactly "
+        "0..n-1), the score matrix has one column per registered id filled at scores[i][track_id] from that track's "
+        "features, cost = -scores, the matched column index is stored as the matched row's track id. Identity "
+        "continuity across frames depends on numerical scores and on the matcher and is NOT decided.",
+        note="Trusted: ast, networkx. This is a partial claim: continuity over histories is outside static reach.",
+        technique="def-use / index-agreement rules on the score matrix + allocation path rules",
+        engine="E7 structural + E3 flow",
+        ref="DESIGN.md §4 C10",
+    ),
+    "C17": dict(
+        text="The order consumed by grouping is shown, by inter-procedural def-use, to be the output of toposort_edges on "
+        "the scorer's own edge list (single writer of sorted_edge_inds, positional hand-over through group_instances -> "
+        "_batch -> _sample bound to parameter names, connections dict filled by a loop over that parameter, assembly "
+        "iterating the dict in insertion order), and toposort_edges is shown to be a root-first networkx traversal of a "
+        "DiGraph holding every (src, dst) edge, rooted at next(topological_sort), mapped back by edges.index in traversal "
+        "order. With the cited networkx facts this gives complete, parent-before-child order for every tree and listing.",
+        note="Trusted: ast, dict insertion order, networkx topological_sort/bfs_edges/dfs_edges semantics. A hand-rolled "
+        "traversal is exit 2 (inconclusive). The exhaustive enumeration of trees is execution and is not done.",
+        technique="inter-procedural def-use + library-fact pattern of the traversal",
+        engine="E7 structural",
+        ref="DESIGN.md §4 C17",
+    ),
     "C19": dict(
         text="Typestate analysis (UNMASKED/MASKED) of the trainer's configuration object over the lifecycle "
         "ModelTrainer.__init__ ; train with self-callees inlined: every persistence sink (the five OmegaConf.save "
